@@ -1,6 +1,7 @@
 package main
 
 import (
+	"math/rand"
 	"bytes"
 	"encoding/binary"
 	"encoding/json"
@@ -65,6 +66,7 @@ type dcField struct {
 	WhenASC  map[string]string `json:"when_ascii"`
 	Stride   map[string]int    `json:"stride_byte"`
 	PascalPd []int             `json:"pascal_padding"`
+	Walker   string            `json:"walker"`
 }
 type dcSpec struct {
 	Fields         []dcField `json:"fields"`
@@ -170,6 +172,9 @@ func maskDontCare(data []byte) []byte {
 					}
 				}
 			}
+			if f.Walker != "" {
+				maskWalker(f.Walker, out[b.start:b.start+b.size])
+			}
 			if len(f.PascalPd) == 2 && f.PascalPd[1] <= b.size {
 				n := int(out[b.start+f.PascalPd[0]])
 				for i := f.PascalPd[0] + 1 + n; i < f.PascalPd[1]; i++ {
@@ -181,6 +186,52 @@ func maskDontCare(data []byte) []byte {
 		}
 	}
 	return out
+}
+
+// maskWalker zeroes reserved bits whose offsets depend on the box's own values (box = whole box incl. 8-byte header)
+func maskWalker(name string, box []byte) {
+	switch name {
+	case "dec3-substreams": // ETSI TS 102 366 F.6: per independent substream reserved(1) after bsid, reserved(3) before num_dep_sub, reserved(1) instead of chan_loc when num_dep_sub = 0
+		if len(box) < 10 {
+			return
+		}
+		p := 10
+		for n := int(box[9]&7) + 1; n > 0 && p+3 <= len(box); n-- {
+			box[p] &^= 0x01
+			box[p+2] &^= 0xe0
+			if box[p+2]&0x1e != 0 {
+				p += 4
+			} else {
+				box[p+2] &^= 0x01
+				p += 3
+			}
+		}
+	case "loudness-bases": // ISO/IEC 14496-12 12.2.7.2: per loudness base reserved(2) before EQ_set_ID (version >= 1) and the upper two bits of reserved(3) before downmix_ID
+		if len(box) < 12 {
+			return
+		}
+		p, n := 12, 1
+		if box[8] >= 1 {
+			if len(box) < 13 {
+				return
+			}
+			p, n = 13, int(box[12]&0x3f)
+		}
+		for ; n > 0; n-- {
+			if box[8] >= 1 {
+				if p >= len(box) {
+					return
+				}
+				box[p] &^= 0xc0
+				p++
+			}
+			if p+7 > len(box) {
+				return
+			}
+			box[p] &^= 0xc0
+			p += 7 + 3*int(box[p+6])
+		}
+	}
 }
 
 func trailingDropAllowed(typ string) bool {
@@ -474,6 +525,30 @@ func seedBoxes(maxSize int) []seedBox {
 			seen[k] = true
 			out = append(out, seedBox{append([]byte{}, d[b.start:b.start+b.size]...), names[i] + ":" + b.path})
 		}
+	}
+	// boxes of the types no repository file contains, built through the library API with random field values
+	// (deterministic: fixed seed; at most 6 per type; only leaf types that no file provided)
+	have := map[string]int{}
+	for _, sb := range out {
+		have[string(sb.bs[4:8])]++
+	}
+	r := rand.New(rand.NewSource(20260929))
+	perType := map[string]int{}
+	for i := 0; i < 6000; i++ {
+		b, typ := c04BuildAPIBox(r)
+		if b == nil || len(b) > maxSize || len(typ) != 4 || have[typ] > 0 || perType[typ] >= 6 {
+			continue
+		}
+		if _, isContainer := walkContainers[typ]; isContainer {
+			continue
+		}
+		k := string(b)
+		if seen[k] {
+			continue
+		}
+		seen[k] = true
+		perType[typ]++
+		out = append(out, seedBox{b, "api:" + typ})
 	}
 	return out
 }
